@@ -7,7 +7,7 @@ import traceback
 from typing import Any, Callable, Dict, Iterator, List, Optional, Tuple
 
 from . import REPO
-from .families import (Graph, as_named, canonical, deviation_closure, enum_closed, fig_graphs,
+from .families import (Graph, as_named, canonical, deviation_closure, enum_closed, fig_graphs, loop_exit_family,
                        get_labeling, is_closed, lab_tag, labelings, make_scfg, set_labeling, shards)
 from .kernel import CpuBudget, shard_map
 from .runner import Acc
@@ -226,6 +226,8 @@ def graph_spec(tier: str, light: bool = False) -> Dict[str, Any]:
     s3 = frontend_corpus_s3()
     if s3:
         lists["S3"] = s3 if not light else s3[::8]
+    lx = loop_exit_family(3, 3) if tier == "quick" else loop_exit_family(4, 3)
+    lists["LX"] = lx if not light else lx[::4]
     try:
         if tier == "quick":
             s1 = frontend_graphs(1)
@@ -250,10 +252,11 @@ def graph_spec(tier: str, light: bool = False) -> Dict[str, Any]:
         emax = int(os.environ["VERIF_E_MAX"])      # opt-in deeper sweep, e.g. VERIF_E_MAX=7 (4.5x10^6 graphs)
     # the same graphs under other names / insertion orders (families.labelings): every naming of the small classes
     if tier == "quick":
-        relabel = {"E2": "all+ns", "E3": "all+ns", "E4": "all+ns", "E5": "one" if light else "few", "S2": "one", "D(S1,2)": "one", "FIG": "few"}
+        relabel = {"E2": "all+ns", "E3": "all+ns", "E4": "all+ns", "E5": "one" if light else "few", "S2": "one", "D(S1,2)": "one", "FIG": "few",
+                   "LX": None if light else "eo"}
     else:
-        relabel = {"E2": "all+ns", "E3": "all+ns", "E4": "all+ns", "E5": "few+ns" if light else "all+ns", "E6": "one" if light else "few",
-                   "S2": "few", "D(S1,3)": "one", "D(S2,1)": "one", "FIG": "all" if not light else "few", "BC(S)": "one"}
+        relabel = {"E2": "all+ns", "E3": "all+ns", "E4": "all+ns", "E5": "few" if light else "few+ns", "E6": None if light else "one",
+                   "S2": "few", "D(S1,3)": "one", "D(S2,1)": "one", "FIG": "few", "BC(S)": "one", "LX": "eo"}
     if os.environ.get("VERIF_NO_RELABEL"):
         relabel = {}
     return {"E": emax, "FIG": True, "LISTS": lists, "relabel": relabel,
